@@ -7,7 +7,7 @@ from ..selftest import Mutant
 
 ID = "C50"
 TECHNIQUE = "path enumeration over the if/elif tree of every state's process() with a character-conservation obligation per path (K2) (ast)"
-FLOOR = 16
+FLOOR = 49
 CL = "breezy/cmdline.py"
 EXPLANATION = """
 K2, per path through each state class's process(next_char, context) (_Whitespace, _Quotes, _Backslash, _Word): the
